@@ -164,6 +164,7 @@ func (f *Frame) step(b *ssa.BasicBlock, ins ssa.Instruction, st *State) bool {
 		av := f.val(x.Addr)
 		pt := x.Addr.Type().Underlying().(*types.Pointer).Elem()
 		vv := f.val(x.Val)
+		f.siteHook("store", x, st, map[string]Value{"value": vv})
 		if a := f.addrOf(av, pt); a != nil {
 			if av.Addr == nil {
 				f.safety("store", x, "nil pointer dereference (store)", st, mkNot(mkEq(av.T, intConst(0))))
@@ -228,8 +229,30 @@ func (f *Frame) step(b *ssa.BasicBlock, ins ssa.Instruction, st *State) bool {
 		f.env[x] = f.typeAssert(x, st)
 
 	case *ssa.Call:
+		if f.top && f.fc != nil && len(f.fc.Sites) > 0 {
+			extra := map[string]Value{}
+			for i, a := range x.Call.Args {
+				v := f.val(a)
+				v.Ty = a.Type()
+				extra[fmt.Sprintf("arg%d", i)] = v
+			}
+			f.siteHook("call", x, st, extra)
+		}
 		res, cont := f.call(x, &x.Call, st)
 		f.env[x] = res
+		if f.top && f.fc != nil && len(f.fc.Sites) > 0 {
+			extra := map[string]Value{}
+			if len(res.Tuple) > 0 {
+				for i, r := range res.Tuple {
+					extra[fmt.Sprintf("ret%d", i)] = r
+				}
+			} else if res.T.S != "" || res.Addr != nil {
+				rv := res
+				rv.Ty = x.Type()
+				extra["ret0"] = rv
+			}
+			f.siteHook("after", x, st, extra)
+		}
 		if !cont {
 			return false
 		}
